@@ -13,7 +13,7 @@ from vlib import Broken, read_ndjson, validate_history_trace, parallel, split_hi
 
 SPEC = "x07_policy_concurrency"
 LEVEL = "model_checking"
-TTL, GC = 4, 4            # ticks of 250 ms: proxy timeout 1 s, reclaim slack 1 s (the limiter's vacuum period is 500 ms)
+TTL, GC = 8, 4            # ticks of 250 ms: proxy timeout 2 s, reclaim slack 1 s (the limiter's vacuum period is 500 ms)
 NOOP = {"k": "noop", "st": 0, "b": "", "h": []}
 
 
@@ -105,7 +105,7 @@ def rand_handler_config(rng):
         gl.append(conc(rng.choice([2, 3, 4]), 440))
     if acct_at == "global":
         gl.insert(rng.randrange(len(gl) + 1), acct(k))
-    return {"ttl": TTL * 2, "gc": GC, "dev": "both", "endpoints": eps, "globals": gl, "tokens": tokens}
+    return {"ttl": TTL, "gc": GC, "dev": "both", "endpoints": eps, "globals": gl, "tokens": tokens}
 
 
 def rand_handler_history(rng, cfg, hid):
@@ -223,7 +223,8 @@ def storm_history(rng, hid, nstorms, nthreads):
     for i in range(nstorms):
         x = i % 5
         if x == 4:
-            h.append({"ev": "pstorm", "k": k, "n": rng.choice([2, nthreads, nthreads + 1])})
+            # simultaneous rotation requests; every fourth time each goroutine asks 300 times back to back
+            h.append({"ev": "pstorm", "k": k, "n": rng.choice([2, nthreads, nthreads + 1]), "it": 300 if i % 20 == 4 else 1})
         elif x == 3:
             # a limiter used before, partly full
             h.append({"ev": "tstorm", "m": "GET", "url": "a.test/r%s" % hid, "scope": "e", "max": 3, "st": 429,
@@ -246,7 +247,7 @@ def d1_history(level):
                                           {"op": "hreq", "t": "d2", "m": "GET", "url": "api.test/a"})]
 
 
-D1_HANDLER_CFG = {"ttl": TTL * 2, "gc": GC, "dev": "both", "tokens": [],
+D1_HANDLER_CFG = {"ttl": TTL, "gc": GC, "dev": "both", "tokens": [],
                   "endpoints": [{"m": "GET", "url": "api.test/a", "rems": [conc(1, 429)]}], "globals": [conc(5, 440)]}
 
 
@@ -320,8 +321,8 @@ def refused(e):
 
 
 def calls(h):
-    return sum((len(e["ts"]) if e["ev"] == "tbatch" else e["n"] if e["ev"] == "pbatch" else 1)
-               for e in h if e["ev"] in ("begin", "tbatch", "pbatch"))
+    return sum((len(e["ts"]) if e["ev"] in ("tbatch", "rbatch") else e["n"] if e["ev"] == "pbatch" else 1)
+               for e in h if e["ev"] in ("begin", "tbatch", "rbatch", "pbatch"))
 
 
 def witness_of(rej):
@@ -420,8 +421,11 @@ def exhaustive(ctx, sd):
     big = {"one": {"Txn": "{t1, t2, t3, t4}", "MaxNow": "6"}, "two": {"Txn": "{t1, t2, t3}", "MaxResp": "2"}} if T else {"one": {}, "two": {}}
     jobs = [("base", (base,), mc_cfg(sd, base, overrides=big[base]), "I x P, instance %s: Conforms / Agree / ExpiryBound / OnePerKey" % base)
             for base in ("one", "two")]
-    jobs += [("refuted", it, mc_cfg(sd, it[1], it[0], it[2]), "non-vacuity: variant %s (Dev=%s) must be refuted" % (it[0], it[2])) for it in REFUTED]
-    jobs += [("accepted", it, mc_cfg(sd, it[1], it[0], it[2]), "variant %s (Dev=%s) satisfies the property" % (it[0], it[2])) for it in ACCEPTED]
+    # quick tier: a subset of the variants (one per mechanism); thorough: all of them
+    refuted = REFUTED if T else [it for it in REFUTED if it[0] in ("check_then_act", "no_vacuum", "pick_split", "none")]
+    accepted = ACCEPTED if T else ACCEPTED[:1]
+    jobs += [("refuted", it, mc_cfg(sd, it[1], it[0], it[2]), "non-vacuity: variant %s (Dev=%s) must be refuted" % (it[0], it[2])) for it in refuted]
+    jobs += [("accepted", it, mc_cfg(sd, it[1], it[0], it[2]), "variant %s (Dev=%s) satisfies the property" % (it[0], it[2])) for it in accepted]
     jobs += [("witness", it, mc_cfg(sd, it[1], invariants=[it[0]]), "witness %s must be reached" % it[0]) for it in (WITNESS if T else WITNESS[2:])]
 
     def one(job):
@@ -441,7 +445,8 @@ def exhaustive(ctx, sd):
         elif kind == "witness" and r.violated is None:
             raise Broken("vacuous model: the situation %s is never reached on instance %s: %r" % (it + (r,)))
     ctx.notes.append("I x P: %d broken variants refuted, %d designs accepted (incl. the engine as it is under Dev=engine/both), %d witnesses reached; "
-                     "the engine as it is (Variant none) is REFUTED against T4 as documented (Dev=doc): deviation D1" % (len(REFUTED), len(ACCEPTED), len(WITNESS)))
+                     "the engine as it is (Variant none) is REFUTED against T4 as documented (Dev=doc): deviation D1" % (
+                         len(refuted), len(accepted), len(WITNESS if T else WITNESS[2:])))
 
 
 # ----------------------------------------------------------------------------- the check
@@ -487,7 +492,7 @@ def run(ctx):
     ctx.cov["trusted_base"] = ["TLC 1.8", "CommunityModules Json", "Go toolchain and scheduler", "harness/cmd/x07 (action snapshots are direct field reads; "
                                "per-goroutine attribution of runner.req_action / resp_action points)", "harness/internal/c12q lock-step clock",
                                "loopback stand-in of the HAProxy admin API (handler level)"]
-    ctx.assumptions += ["1 tick = 250 ms; proxy timeout 1 s at plugin level; the clock moves only between calls (no call overlaps a clock step)",
+    ctx.assumptions += ["1 tick = 250 ms; proxy timeout 2 s at plugin level; the clock moves only between calls (no call overlaps a clock step)",
                         "transaction ids are unique; a transaction asks a limiter at most once",
                         "one account_orchestration list per history (X01 reports that all such remedies share one rotation)",
                         "handler level: literal endpoint URLs only (pattern matching is C13 / X01), no clock steps, no policy reloads",
@@ -514,15 +519,15 @@ def run(ctx):
     ctx.sample({"kind": "tlc-walk", "events": walks[0][:10]})
     judge(ctx, binary, gsc, gtr, "gen", stats)
     ctx.log("replayed %d walks (%d drift)" % (len(walks), drift))
-    ctx.notes.append("replayed %d walks of PolConcP; %d take another permitted branch than the walk (the walk reclaims a lost slot at the proxy "
-                     "timeout, the engine one vacuum period later)" % (len(walks), drift))
+    ctx.notes.append("replayed %d walks of PolConcP (lost slots reclaimed one vacuum period after the proxy timeout, as the engine does); in %d the real "
+                     "code takes another permitted branch than the walk" % (len(walks), drift))
 
     # (3) code -> spec, plugin level: random concurrent programs and storms
     nscripts, nh = (5, 32) if not T else (16, 120)
     scripts = [script_of("plugin", plugin_config(), [rand_plugin_history(ctx.rng, "%d_%d" % (s, i), conc_ok=(i % 4 != 0)) for i in range(nh)])
                for s in range(nscripts)]
-    for s in range(2 if not T else 6):
-        scripts.append(script_of("plugin", plugin_config(), [storm_history(ctx.rng, "%d_%d" % (s, i), 200 if not T else 250, 8) for i in range(3 if not T else 10)]))
+    for s in range(4 if not T else 8):
+        scripts.append(script_of("plugin", plugin_config(), [storm_history(ctx.rng, "%d_%d" % (s, i), 500, 8) for i in range(3 if not T else 12)]))
     traces = run_observing_crashes(ctx, binary, scripts, "plug")
     if traces is None:
         return
